@@ -94,19 +94,23 @@ func Thin(in []Named, want int) []Named {
 	return out
 }
 
-// RunField enumerates: every binary op on all x all (three aliasing patterns), every unary op and
-// predicate on all, and AddSub / Cmov / Cswap / InvSqrt on key x key. One case per (op, first operand);
+// RunField enumerates: every binary op on all x second (output fresh; also =x and =y when the second
+// operand is a key operand), every unary op and predicate on all, and AddSub / Cmov / Cswap / InvSqrt on key x key. One case per (op, first operand);
 // the digest of a case covers every second operand, both the raw output bytes and their canonical form.
-func RunField(c *T, f *Field, all, key []Named) {
+func RunField(c *T, f *Field, all, second, key []Named) {
 	r := c.R
 	r.Set("field", f.Name)
 	r.Set("elements", len(all))
 	r.Set("key_elements", len(key))
-	r.Set("ordered_pairs_per_binary_op", len(all)*len(all))
+	r.Set("second_operands", len(second))
+	r.Set("ordered_pairs_per_binary_op", len(all)*len(second))
+	iskey := map[string]bool{}
+	for _, k := range key {
+		iskey[k.Name] = true
+	}
 	out := func(d *D, label string, z []byte) {
 		d.Exec(1)
-		d.Bytes(label+".raw", z)
-		d.Bytes(label+".canon", f.Canon(z))
+		d.Bytes(label, append(append(make([]byte, 0, 2*len(z)), z...), f.Canon(z)...)) // raw output bytes, then their ToBytes form
 	}
 	type job struct {
 		op   string
@@ -140,9 +144,11 @@ func RunField(c *T, f *Field, all, key []Named) {
 		case 0:
 			x := all[j.i]
 			c.Case(j.op+"#x="+x.Name, func(d *D) {
-				for _, y := range all {
-					for alias := 0; alias < 3; alias++ {
-						out(d, y.Name, f.Bin(j.op, alias, x.V, y.V))
+				for _, y := range second {
+					out(d, y.Name, f.Bin(j.op, 0, x.V, y.V))
+					if iskey[y.Name] { // aliasing patterns z=x and z=y on the key operands
+						out(d, y.Name, f.Bin(j.op, 1, x.V, y.V))
+						out(d, y.Name, f.Bin(j.op, 2, x.V, y.V))
 					}
 				}
 			})
